@@ -332,3 +332,5 @@ func readAllClose(rc io.ReadCloser) ([]byte, error) {
 	}
 	return b, err
 }
+
+func backgroundCtx() context.Context { return context.Background() }
